@@ -4,10 +4,10 @@ type ChildNodes []*ChildNode
 
 func (nodes ChildNodes) Individuals() (individuals IndividualNodes) {
 	for _, child := range nodes {
-		pointer := valueToPointer(child.Value())
-		individual := nodes[0].Family().Document().NodeByPointer(pointer)
-
-		individuals = append(individuals, individual.(*IndividualNode))
+		// The child may not exist in the document.
+		if individual := child.Individual(); individual != nil {
+			individuals = append(individuals, individual)
+		}
 	}
 
 	return
